@@ -79,14 +79,20 @@ static void* quick_exit_sleeper(void* a) {  // finishes right after waking: its 
   vp_add(c_quick_exit, 1);
   return NULL;
 }
+static _Atomic uint64_t cpu_deadline_ns;
+static int cpu_rounds;
 static void* cpu_then_sleep(void* a) {
   fb_slot_t* s = (fb_slot_t*)a;
-  // CPU-bound phase without any yield: nobody polls the timer meanwhile if every thread is busy
-  const uint64_t end = vp_now_ns() + (uint64_t)s->c * 1000000ULL;
-  while (vp_now_ns() < end) {
+  int r;
+  for (r = 0; r < cpu_rounds; ++r) {
+    // CPU-bound phase without any yield up to a COMMON deadline: nobody polls the timer meanwhile if every thread is
+    // busy (ticks pile up unread), and then all threads call the sleep at the same instant
+    const uint64_t end = atomic_load(&cpu_deadline_ns) + (uint64_t)r * (uint64_t)s->c * 1000000ULL;
+    while (vp_now_ns() < end) {
+    }
+    vp_add(c_cpu_before, 1);
+    do_sleep(s, 1, r == 0 ? 20000 : 3000);
   }
-  vp_add(c_cpu_before, 1);
-  do_sleep(s, 1, 20000);
   return NULL;
 }
 static void* ticker(void* a) {
@@ -145,7 +151,9 @@ static void* root(void* x) {
         break;
       }
       case 2: {  // every kernel thread CPU-bound (no polling) before the sleep: stale tick counter
-        const long ms = 60 + (long)(vp_rand(&rng) % 240);
+        const long ms = 60 + (long)(vp_rand(&rng) % 140);
+        cpu_rounds = (int)vp_param("cpu_rounds", 6);
+        atomic_store(&cpu_deadline_ns, vp_now_ns() + (uint64_t)ms * 1000000ULL);
         for (i = 0; i < vp_cfg.threads; ++i) sl[n++] = fb_spawn(cpu_then_sleep, (void*)(intptr_t)ms);
         break;
       }
